@@ -9,8 +9,9 @@
 
 namespace mt {
 static volatile uint64_t n_allocs = 0, cur_bytes = 0, peak_bytes = 0, biggest = 0;
-static inline void reset() { n_allocs = 0; peak_bytes = cur_bytes; biggest = 0; }
-static inline void on_alloc(size_t sz) { n_allocs++; cur_bytes += sz; if(cur_bytes > peak_bytes) peak_bytes = cur_bytes; if(sz > biggest) biggest = sz; }
+static uint64_t trap_at = 0;   // development aid: MT_TRAP=<bytes> aborts on the first allocation at least that big (for a debugger backtrace)
+static inline void reset() { if(const char *t = getenv("MT_TRAP")) trap_at = strtoull(t, 0, 10); n_allocs = 0; peak_bytes = cur_bytes; biggest = 0; }
+static inline void on_alloc(size_t sz) { if(trap_at && sz >= trap_at) abort(); n_allocs++; cur_bytes += sz; if(cur_bytes > peak_bytes) peak_bytes = cur_bytes; if(sz > biggest) biggest = sz; }
 static inline void on_free(size_t sz) { cur_bytes = cur_bytes >= sz ? cur_bytes - sz : 0; }
 }
 
